@@ -33,7 +33,10 @@ pub fn eval(sc: &Scenario) -> CaseResult {
         r.violation = running_iff_all_synced(sc, &out);
     }
     if r.violation.is_none() && sc.peers.len() <= 2 && !mute_spectator(sc) {
-        r.violation = event_timing(sc, &out, &|_n, _a| false);
+        // a host's spectator endpoint can also be disconnected by the 128-pending-inputs cap when acks
+        // are lost; that path is not a timeout and is judged by C18, so it is only predicted on loss-free links
+        let lossy = sc.link.loss > 0 || !sc.faults.is_empty();
+        r.violation = event_timing(sc, &out, &|n, a| lossy && n.starts_with("peer") && a > 100);
     }
     if r.violation.is_none() {
         let m = out.peers.iter().map(|p| p.max_events_len).chain(out.specs.iter().map(|s| s.max_events_len)).max().unwrap_or(0);
@@ -95,6 +98,11 @@ pub fn gen_handshake() -> BoxedStrategy<Scenario> {
     (scenario(&p), proptest::collection::vec((any::<u16>(), any::<u16>(), 0u8..3, any::<i32>(), 1u32..40), 0..10), proptest::collection::vec((any::<u16>(), 0u8..2, 1u32..14), 0..6))
         .prop_map(|(mut sc, forges, faults)| {
             let links = all_links(&sc);
+            if sc.peers.len() >= 3 {
+                // heavy loss must not end in a timeout disconnect in a 3-peer session (C10's space)
+                sc.notify_ms = 3000;
+                sc.timeout_ms = 30_000;
+            }
             for (l, t, kind, a, at) in forges {
                 let (from, to) = links[idx(l, links.len())];
                 let _ = t;
